@@ -308,23 +308,8 @@ func projectedPaths(fn *ssa.Function, event func(ssa.Instruction) string) (map[s
 		}
 		end := d.EndKind
 		if d.EndKind == "return" && d.Ret != nil && len(d.Ret.Results) > 0 && isErrorType(d.Ret.Results[len(d.Ret.Results)-1].Type()) {
-			r := d.Ret.Results[len(d.Ret.Results)-1]
-			if ph, ok := r.(*ssa.Phi); ok {
-				if ch, ok := d.Env.Phi[ph]; ok {
-					r = ch
-				}
-			}
-			// results spilled around rundefers: the value is the last store to the result slot on this path
-			if ld, ok := r.(*ssa.UnOp); ok && ld.Op == token.MUL {
-				if al, ok := ld.X.(*ssa.Alloc); ok {
-					for _, ins := range pathInstrs(d) {
-						if st, ok := ins.(*ssa.Store); ok && st.Addr == ssa.Value(al) {
-							r = st.Val
-						}
-					}
-				}
-			}
-			if k, ok := r.(*ssa.Const); ok && k.Value == nil {
+			// nil (constant, or tested nil on the path), or some error
+			if returnDesc(d) == "return nil" {
 				end = "return nil"
 			} else {
 				end = "return err"
@@ -599,8 +584,9 @@ func ruleSFan(c *Ctx) {
 	fieldsRead := func(fn *ssa.Function) (fields []string, calls int, argsOK bool) {
 		argsOK = true
 		seen := map[string]bool{}
-		for _, b := range fn.Blocks {
-			for _, ins := range b.Instrs {
+		view := viewOf(fn) // with a shared "run every function of this list" helper read as part of the method
+		{
+			for _, ins := range view.Instrs {
 				switch x := ins.(type) {
 				case *ssa.FieldAddr:
 					if x.X == ssa.Value(fn.Params[0]) {
@@ -621,7 +607,7 @@ func ruleSFan(c *Ctx) {
 							argsOK = false
 						}
 						for i, a := range x.Call.Args {
-							if i+1 < len(fn.Params) && a != ssa.Value(fn.Params[i+1]) {
+							if i+1 < len(fn.Params) && view.Env.Val(a) != ssa.Value(fn.Params[i+1]) {
 								argsOK = false
 							}
 						}
